@@ -22,6 +22,31 @@ def new_label():
     return next(_label)
 
 
+# An output entry is a label (int) or a compound entry describing a reshape of legs:
+#   ('half', entry, 'L'|'R')   one factor of a leg split in two (row-major: L is the slow index)
+#   ('flat', e1, e2, ...)      legs merged into one (row-major, e1 slowest)
+def map_entry(f, e):
+    if isinstance(e, tuple):
+        return (e[0],) + tuple(map_entry(f, x) if not isinstance(x, str) else x for x in e[1:])
+    return f(e)
+
+
+class TDim:
+    """a dimension, not represented (all sizes): only carried through arithmetic"""
+
+    def __init__(self, desc):
+        self.desc = desc
+
+    def pv_binop(self, ip, opname, other, reflected=False):
+        return TDim('(%s %s %s)' % (self.desc, opname, getattr(other, 'desc', other)))
+
+    def pv_getattr(self, ip, attr):
+        raise Unsupported('dimension attribute %s' % attr)
+
+    def __repr__(self):
+        return 'dim<%s>' % self.desc
+
+
 class TArr:
     """einsum term.  factors: list of (symbol, tuple(labels)); out: list of labels;
     coeff: tuple of scalar symbol names multiplying the term (kept sorted)."""
@@ -48,7 +73,12 @@ class TArr:
             if l not in m:
                 m[l] = new_label()
             return m[l]
-        return TArr([(s, tuple(f(l) for l in ls)) for s, ls in self.factors], [f(l) for l in self.out], self.coeff)
+        return TArr([(s, tuple(f(l) for l in ls)) for s, ls in self.factors], [map_entry(f, l) for l in self.out], self.coeff)
+
+    def substitute(self, ident):
+        """identify labels (used by contractions); ident maps label -> representative"""
+        g = lambda l: ident.get(l, l)
+        return TArr([(s, tuple(g(l) for l in ls)) for s, ls in self.factors], [map_entry(g, l) for l in self.out], self.coeff)
 
     def permute(self, perm):
         return TArr(self.factors, [self.out[p] for p in perm], self.coeff)
@@ -69,7 +99,16 @@ class TArr:
         if attr == 'T':
             return self.permute(list(reversed(range(self.rank))))
         if attr == 'shape':
-            return tuple('dim%d' % l for l in self.out)
+            return tuple(TDim(str(l)) for l in self.out)
+        if attr == 'reshape':
+            def reshape(ip_, a, k):
+                shp = a[0] if len(a) == 1 and isinstance(a[0], (tuple, list)) else a
+                if not self.factors and self.rank == 2 and self.out[0] == self.out[1] and len(shp) == 1:
+                    return TArr.sym('VECID', 1)     # np.identity(h).reshape(h**2): the trace cap vec(1)
+                if self.rank == 1 and len(shp) == 2:
+                    return TArr(self.factors, [('half', self.out[0], 'L'), ('half', self.out[0], 'R')], self.coeff)
+                raise Unsupported('reshape of a tensor term')
+            return Builtin('ndarray.reshape', reshape)
         if attr == 'ndim':
             return self.rank
         if attr == 'transpose':
@@ -109,6 +148,8 @@ def tdot(a, b, matmul=False):
     if matmul and a.rank > 2 or matmul and b.rank > 2:
         raise Unsupported('matmul broadcasting over batch dimensions')
     la, lb = a.out[ka], b.out[kb]
+    if isinstance(la, tuple) or isinstance(lb, tuple):
+        raise Unsupported('contraction of a reshaped leg')
     bf = [(s, tuple(la if l == lb else l for l in ls)) for s, ls in b.factors]
     bout = [la if l == lb else l for l in b.out]
     out = a.out[:ka] + [l for i, l in enumerate(bout) if i != kb]
@@ -151,6 +192,10 @@ def equal(x, y):
         m, inv, ok = {}, {}, True
 
         def bind(a, b):
+            if isinstance(a, tuple) or isinstance(b, tuple):
+                if not (isinstance(a, tuple) and isinstance(b, tuple)) or len(a) != len(b) or a[0] != b[0]:
+                    return False
+                return all((x == y) if isinstance(x, str) else bind(x, y) for x, y in zip(a[1:], b[1:]))
             if m.get(a, b) != b or inv.get(b, a) != a:
                 return False
             m[a], inv[b] = b, a
@@ -202,6 +247,9 @@ class TEdge:
     def pv_getattr(self, ip, attr):
         if attr == 'name':
             return self.name
+        if attr == 'dimension':
+            n, ax = self.ends[0]
+            return TDim(str(n.arr.out[ax]))
         raise Unsupported('edge attribute %s' % attr)
 
 
@@ -257,6 +305,11 @@ class TNode:
             return Builtin('Node.reorder_edges', reorder)
         if attr == 'name':
             return self.name
+        if attr == 'copy':
+            # Node.copy(): same tensor, fresh dangling edges
+            return Builtin('Node.copy', lambda ip_, a, k: TNode(self.arr, self.name))
+        if attr == 'get_dimension':
+            return Builtin('Node.get_dimension', lambda ip_, a, k: TDim(str(self.arr.out[concrete_int(a[0])])))
         raise Unsupported('node attribute %s' % attr)
 
     def pv_setattr(self, ip, attr, val):
@@ -279,19 +332,29 @@ def contract_between(a, b):
     if not shared:
         # outer product
         pass
-    ident = {}
+    parent = {}
+
+    def find(x):
+        while parent.get(x, x) != x:
+            x = parent[x]
+        return x
     for e in shared:
         (n1, a1), (n2, a2) = e.ends
         la = a.arr.out[a1 if n1 is a else a2]
         lb = b.arr.out[a2 if n2 is b else a1]
-        ident[lb] = la
-    bf = [(s, tuple(ident.get(l, l) for l in ls)) for s, ls in b.arr.factors]
-    bout = [ident.get(l, l) for l in b.arr.out]
+        if isinstance(la, tuple) or isinstance(lb, tuple):
+            raise Unsupported('contraction of a reshaped leg')
+        ra, rb = find(la), find(lb)
+        if ra != rb:
+            parent[rb] = ra
+    labs = set(l for _, ls in a.arr.factors + b.arr.factors for l in ls) | set(l for l in a.arr.out + b.arr.out if not isinstance(l, tuple))
+    ident = {l: find(l) for l in labs if find(l) != l}
+    sa, sb = a.arr.substitute(ident), b.arr.substitute(ident)
     keep_a = [i for i, e in enumerate(a.edges) if e not in shared]
     keep_b = [i for i, e in enumerate(b.edges) if e not in shared]
-    out = [a.arr.out[i] for i in keep_a] + [bout[i] for i in keep_b]
+    out = [sa.out[i] for i in keep_a] + [sb.out[i] for i in keep_b]
     c = TNode.__new__(TNode)
-    c.arr = TArr(a.arr.factors + bf, out, a.arr.coeff + b.arr.coeff)
+    c.arr = TArr(sa.factors + sb.factors, out, a.arr.coeff + b.arr.coeff)
     c.name = None
     c.edges = [a.edges[i] for i in keep_a] + [b.edges[i] for i in keep_b]
     for ax, e in enumerate(c.edges):
@@ -308,6 +371,8 @@ def tn_copy(nodes):
         c.name = n.name
         c.edges = []
         node_dict[n] = c
+    # (tensornetwork.copy: "If nodes A and B are connected but only A is passed in to be copied,
+    # the edge between them will become a dangling edge.")
     for n in nodes:
         c = node_dict[n]
         for ax, e in enumerate(n.edges):
@@ -320,10 +385,45 @@ def tn_copy(nodes):
                 edge_dict[e] = ne
             c.edges.append(ne)
             ne.ends.append((c, ax))
-    for e, ne in edge_dict.items():
-        if len(e.ends) == 2 and len(ne.ends) != 2:
-            raise Unsupported('tn.copy of a node connected to a node outside the copied set')
     return node_dict, edge_dict
+
+
+def split_edge(edge, shape):
+    """tn.split_edge on a dangling edge, shape (d, d): the node's axis moves to the back and is
+    replaced by two new dangling edges (row-major factors)"""
+    if not edge.is_dangling() or len(shape) != 2:
+        raise Unsupported('split_edge of a connected edge / into != 2 factors')
+    node, ax = edge.ends[0]
+    e = node.arr.out[ax]
+    keep = [i for i in range(len(node.edges)) if i != ax]
+    node.arr = TArr(node.arr.factors, [node.arr.out[i] for i in keep] + [('half', e, 'L'), ('half', e, 'R')], node.arr.coeff)
+    new = [TEdge(node, len(keep)), TEdge(node, len(keep) + 1)]
+    node.edges = [node.edges[i] for i in keep] + new
+    for i, ed in enumerate(node.edges):
+        ed.ends = [(n, (i if n is node else a_)) for n, a_ in ed.ends]
+    edge.ends = []          # disabled
+    return new
+
+
+def flatten_edges(edges):
+    """tn.flatten_edges on dangling edges of one node: the axes move to the back (in the given
+    order) and are merged into one new dangling edge"""
+    edges = list(edges)
+    if len(edges) == 1:
+        return edges[0]
+    if any(not e.is_dangling() for e in edges) or len(set(id(e.ends[0][0]) for e in edges)) != 1:
+        raise Unsupported('flatten_edges of connected edges / edges of different nodes')
+    node = edges[0].ends[0][0]
+    back = [next(i for i, x in enumerate(node.edges) if x is e) for e in edges]
+    front = [i for i in range(len(node.edges)) if i not in back]
+    node.arr = TArr(node.arr.factors, [node.arr.out[i] for i in front] + [('flat',) + tuple(node.arr.out[i] for i in back)], node.arr.coeff)
+    new = TEdge(node, len(front))
+    node.edges = [node.edges[i] for i in front] + [new]
+    for i, ed in enumerate(node.edges):
+        ed.ends = [(n, (i if n is node else a_)) for n, a_ in ed.ends]
+    for e in edges:
+        e.ends = []
+    return new
 
 
 def install(R):
@@ -374,6 +474,68 @@ def install(R):
     def m_transpose(ip, args, kw):
         a = args[0]
         return a.permute(list(args[1]) if len(args) > 1 else list(reversed(range(a.rank))))
+    @model
+    def m_tensordot(ip, args, kw):
+        a, b = args[0].relabel(), args[1].relabel()
+        axes = kw.get('axes', args[2] if len(args) > 2 else 2)
+        if isinstance(axes, int):
+            ax_a = list(range(a.rank - axes, a.rank))
+            ax_b = list(range(axes))
+        else:
+            ax_a, ax_b = axes
+            ax_a = [ax_a] if isinstance(ax_a, int) else list(ax_a)
+            ax_b = [ax_b] if isinstance(ax_b, int) else list(ax_b)
+        ax_a = [x % a.rank for x in ax_a]
+        ax_b = [x % b.rank for x in ax_b]
+        ident = {b.out[j]: a.out[i] for i, j in zip(ax_a, ax_b)}
+        bf = [(s_, tuple(ident.get(l, l) for l in ls)) for s_, ls in b.factors]
+        out = [l for i, l in enumerate(a.out) if i not in ax_a] + [l for j, l in enumerate(b.out) if j not in ax_b]
+        return TArr(a.factors + bf, out, a.coeff + b.coeff)
+
+    @model
+    def m_einsum(ip, args, kw):
+        spec = args[0]
+        ops = [x.relabel() for x in args[1:]]
+        lhs, rhs = spec.split('->')
+        lab = {}
+        factors = []
+        for part, t in zip(lhs.split(','), ops):
+            ren = {}
+            for c, l in zip(part, t.out):
+                if c in lab:
+                    ren[l] = lab[c]
+                else:
+                    lab[c] = l
+            factors += [(s_, tuple(ren.get(x, x) for x in ls)) for s_, ls in t.factors]
+            for c, l in zip(part, t.out):
+                lab.setdefault(c, ren.get(l, l))
+        return TArr(factors, [lab[c] for c in rhs], sum((t.coeff for t in ops), ()))
+    @model
+    def m_identity(ip, args, kw):
+        l = new_label()
+        return TArr([], [l, l])            # delta_{ab}: contraction with it identifies the two legs
+
+    @model
+    def m_diag(ip, args, kw):
+        v = args[0]
+        if not isinstance(v, TArr) or v.rank != 1:
+            raise Unsupported('np.diag of a non-vector')
+        v = v.relabel()
+        return TArr(v.factors, [v.out[0], v.out[0]], v.coeff)
+
+    @model
+    def m_split_edge(ip, args, kw):
+        return split_edge(args[0], args[1] if len(args) > 1 else kw['shape'])
+
+    @model
+    def m_flatten_edges(ip, args, kw):
+        return flatten_edges(args[0])
+    R.lib_models['numpy.identity'] = m_identity
+    R.lib_models['numpy.diag'] = m_diag
+    R.lib_models['tensornetwork.split_edge'] = m_split_edge
+    R.lib_models['tensornetwork.flatten_edges'] = m_flatten_edges
+    R.lib_models['numpy.tensordot'] = m_tensordot
+    R.lib_models['numpy.einsum'] = m_einsum
     R.lib_models['tensornetwork.Node'] = m_node
     R.lib_models['tensornetwork.copy'] = m_copy
     R.lib_models['tensornetwork.replicate_nodes'] = m_replicate
